@@ -777,7 +777,9 @@ class QueryPlanner:
     def plan_cte(self, query):
 
         for cte in query.cte:
-            step = self.plan_select(cte.query)
+            # planned on a copy: planning rewrites a query in place (a join sent whole to its integration loses its
+            # qualifiers), and the definition still belongs to the statement being classified and planned
+            step = self.plan_select(copy.deepcopy(cte.query))
             name = cte.name.parts[-1]
             self.cte_results[name] = step.result
 
